@@ -224,7 +224,13 @@ func bytesLit(s string) string {
 func main() {
 	repo := flag.String("repo", "/repo", "repository root")
 	out := flag.String("out", "", "output Lean file")
+	heapOut := flag.String("heapout", "", "output Lean file of the heap-mode translation (pointer code)")
 	flag.Parse()
+	if *heapOut != "" {
+		for _, e := range heapMain(*repo, *heapOut) {
+			fmt.Fprintln(os.Stderr, "translate:", e)
+		}
+	}
 	t := &tr{fset: token.NewFileSet(), files: map[string]*ast.File{}, consts: map[string]string{}, constType: map[string]string{}, sentinels: map[string]bool{}, sets: map[string][]string{}, slices: map[string][]string{}, structs: map[string][][2]string{}, errStruct: map[string]bool{}, fns: map[string]*fnInfo{}, intTypes: map[string]bool{}}
 	need := map[string]bool{}
 	for _, f := range extraFiles {
